@@ -36,6 +36,9 @@ pub struct Shared {
     /// CPU time of the slowest probe of the batch (µs) and of the slowest valid (unmutated) input
     pub max_probe_cpu_us: AtomicU64,
     pub max_valid_cpu_us: AtomicU64,
+    /// slowest single `Debug` call of the batch / on a valid record (µs)
+    pub max_debug_call_us: AtomicU64,
+    pub max_valid_debug_call_us: AtomicU64,
     /// number of panic-hook invocations during the probe in progress
     pub panics_in_probe: AtomicU64,
     /// `file:line: message` of the last panic (for aborts that follow a panic)
@@ -44,9 +47,9 @@ pub struct Shared {
 }
 
 pub static SHARED: AtomicPtr<Shared> = AtomicPtr::new(std::ptr::null_mut());
-pub static OBSERVE: AtomicUsize = AtomicUsize::new(256 << 20);
-pub static REFUSE: AtomicUsize = AtomicUsize::new(1 << 30);
-pub static RUNAWAY_OLD: AtomicUsize = AtomicUsize::new(64 << 20);
+pub static OBSERVE: AtomicUsize = AtomicUsize::new(16 << 20);
+pub static REFUSE: AtomicUsize = AtomicUsize::new(64 << 20);
+pub static RUNAWAY_OLD: AtomicUsize = AtomicUsize::new(16 << 20);
 
 pub fn shared() -> Option<&'static Shared> {
     let p = SHARED.load(Relaxed);
@@ -92,8 +95,30 @@ fn marker(kind: u64, size: usize, old: usize) {
     }
 }
 
+/// The limits apply only while a probe runs (set by `Armed`); the harness' own set-up (e.g. the LZMA encoder that
+/// produces a seed allocates a 64 MiB dictionary) is not subject to them.
+pub static ARMED: AtomicU64 = AtomicU64::new(0);
+
+pub struct Armed;
+
+impl Armed {
+    pub fn new() -> Armed {
+        ARMED.store(1, Relaxed);
+        Armed
+    }
+}
+
+impl Drop for Armed {
+    fn drop(&mut self) {
+        ARMED.store(0, Relaxed);
+    }
+}
+
 #[inline]
 fn refuse(size: usize, old: usize, is_realloc: bool) -> bool {
+    if ARMED.load(Relaxed) == 0 {
+        return false;
+    }
     if size < OBSERVE.load(Relaxed) && !(is_realloc && old >= RUNAWAY_OLD.load(Relaxed)) {
         return false;
     }
@@ -206,6 +231,8 @@ impl Shared {
         self.observed_max.store(0, Relaxed);
         self.max_probe_cpu_us.store(0, Relaxed);
         self.max_valid_cpu_us.store(0, Relaxed);
+        self.max_debug_call_us.store(0, Relaxed);
+        self.max_valid_debug_call_us.store(0, Relaxed);
         for r in &self.matrix {
             for c in r {
                 c.store(0, Relaxed);
